@@ -485,19 +485,19 @@ def bounds_for(name, tier):
     what the operation reads): quick finishes in minutes on a shared machine, thorough in an hour."""
     labels = LABELS
     if name in SMALL:
-        K, D = (3, 2) if tier == "quick" else (4, 3)
+        K, D = (3, 2) if tier == "quick" else (4, 2)
         labels = LABELS[:2]
     elif name in LIGHT:
-        K, D = (4, 3) if tier == "quick" else (5, 4)
+        K, D = (4, 3) if tier == "quick" else (5, 3)
     elif name == "delete_detached":
         # every deleted node's label is looked at (parent directory, working directory): 2 labels quick
         # measured: K=3/D=1 384 paths, K=4/D=1 10279 paths (2 labels)
         K, D = (3, 1) if tier == "quick" else (4, 1)
         labels = ["a", "d/x"]
     elif name in HEAVY:
-        K, D = (4, 1) if tier == "quick" else (4, 2)
+        K, D = (4, 1) if tier == "quick" else (4, 2)  # try_recycle at (4, 2): 7236 paths
     else:
-        K, D = (4, 2) if tier == "quick" else (4, 3)
+        K, D = (4, 2) if tier == "quick" else (4, 3)  # mark_step_pending at (4, 3): 1707 paths
     return K, D, labels
 
 
